@@ -252,6 +252,8 @@ class CoroutineProcessor(Processor):
             except StopIteration as exception:
                 gen = self._active_queue.popleft()
                 del self._generators[gen]
+                # The coroutine may have killed itself before returning
+                self._kill_queue.discard(gen)
                 self._promises[gen].value = exception.value
                 del self._promises[gen]
                 continue        # Do not rotate if last item was popped
